@@ -14,6 +14,14 @@
         [conformsb r root (parse (generate r s)) (paths r s) id e = true]
         for skeleton-consistent [r].
 
+    UPDATE: [C14_total] (end of this file) is now proved WITHOUT the hypothesis [tg_total]:
+    the three hypotheses of [C14_total_partial] are derived (Proofs/ExampleRustTotal.v) from the
+    class the typegen totality theorems of C10 are stated on ([generable], implied by the
+    run-time booleans [wf_regb r && supportedb r s]).  Bit sequences need NOT be excluded (their
+    example is a constant); 256-bit integers are excluded by [wf_regb] ([entry_wfb]), because
+    printing a path that contains one hits [unimplemented!] in the type generator.
+    [C14_total_partial] is kept (it applies to registries outside the C10 class).
+
     What is PROVED below (universally, by induction on the two fuels and on
     the structure of field lists; no evaluation of samples):
 
@@ -46,12 +54,12 @@
     Determinism: [example_rust] is a Gallina function of (r, s, id, ws). *)
 From Coq Require Import List NArith ZArith String.
 From V Require Import Base.Result Model.Registry Model.Settings Model.RngWords Model.ExampleRust
-  Proofs.ExampleRustProofs.
+  Model.WellFormed Proofs.ExampleRustProofs Proofs.ExampleRustTotal.
 Import ListNotations.
 
 Theorem C14_total_partial :
   forall (r : registry) (s : settings) (rk : N -> nat),
-    ranked r rk ->          (* element edges strictly decrease a rank bounded by the number of entries *)
+    ExampleRustProofs.ranked r rk ->          (* element edges strictly decrease a rank bounded by the number of entries *)
     names_lex r ->          (* field and variant names are lexically identifiers *)
     tg_total r s ->         (* the type generator neither panics nor diverges on the struct / enum entries *)
     forall (id : N) (ws : words),
@@ -103,3 +111,52 @@ Theorem C14_recursion_is_error :
     resolve_go r s (S fo) id (c, ws) = XErr (XRecursive id).
 Proof. exact resolve_in_progress_is_error. Qed.
 Print Assumptions C14_recursion_is_error.
+
+(** ** C14_total, unconditional.  [generable r s rank] (Model/WellFormed.v; the class of
+    C10_total): ids = positions; closed; [rank] strictly decreases along the non-field edges
+    (typed type parameters, sequence / array / tuple elements, compact inner, bit store / order)
+    and is bounded by the number of entries; every Composite / Variant entry has a >= 2 segment
+    path of [ident_okb] segments or a 1 segment prelude path, [ident_okb] field / variant names
+    and all-named-or-all-unnamed field lists; a last path segment [Cow] comes with a typed first
+    parameter; no U256 / I256 primitive; the settings have a compact (bits) path whenever a
+    Compact (BitSequence) entry exists.  Bit sequences are allowed.
+    Conclusion: for EVERY id (dangling ids included) and EVERY word list the example is [XOk _]
+    or a documented error; never a panic, never fuel exhaustion. *)
+Theorem C14_total_generable :
+  forall (r : registry) (s : settings) (rank : N -> nat),
+    generable r s rank ->
+    forall (id : N) (ws : words),
+      match example_rust r s id ws with
+      | XPanic _ => False
+      | XErr XOutOfFuel => False
+      | _ => True
+      end.
+Proof. exact example_total_generable. Qed.
+Print Assumptions C14_total_generable.
+
+(** the same on the run-time booleans evaluated on every generated case ([hyp_wf]) *)
+Theorem C14_total :
+  forall (r : registry) (s : settings),
+    wf_regb r = true -> supportedb r s = true ->
+    forall (id : N) (ws : words),
+      match example_rust r s id ws with
+      | XPanic _ => False
+      | XErr XOutOfFuel => False
+      | _ => True
+      end.
+Proof. exact example_total_wf. Qed.
+Print Assumptions C14_total.
+
+(** the hypothesis of [C14_total_partial] that used to be assumed *)
+Theorem C14_tg_total :
+  forall (r : registry) (s : settings) (rank : N -> nat), generable r s rank -> tg_total r s.
+Proof. exact tg_total_generable. Qed.
+Print Assumptions C14_tg_total.
+
+Theorem C14_total_hypotheses_satisfiable :
+  exists (r : registry) (s : settings),
+    wf_regb r = true /\ supportedb r s = true /\
+    (exists id ws e, example_rust r s id ws = XErr e) /\
+    (exists id ws t, example_rust r s id ws = XOk t).
+Proof. exact wf_hypotheses_satisfiable. Qed.
+Print Assumptions C14_total_hypotheses_satisfiable.
